@@ -6,10 +6,13 @@ import numpy as np
 
 import lib
 import translate_est
+import translate_C10
 from lib import qlit, qlist, qmat, zlist, coq_list, coq_bool
 
 IMPORTS = ("From Coq Require Import List ZArith QArith Bool.\nImport ListNotations.\n"
-           "From CE Require Import Model.Harness Model.KnnCounts Model.PoissonMI.\nOpen Scope Z_scope.\n")
+           "From CE Require Import Model.Harness Model.KnnCounts Model.PoissonMI Model.PoissonCMI.\nOpen Scope Z_scope.\n")
+PCMI_TYPE = "nat * nat * nat * list (list Q) * Q * Q * list (bool * list nat * bool * list (Q * Q) * Q)"
+RATE_TOL, VALUE_TOL = 1e-12, 1e-9      # stated in every conditional-Poisson case
 REL = 1e-9
 METRICS = {"euclidean": "Euclid", "cityblock": "City", "chebyshev": "Cheb"}
 
@@ -25,25 +28,85 @@ def rows_term(Xi, Yi, Zi):
     return coq_list([f"({zlist(Xi[i])}, {zlist(Yi[i])}, {zlist(Zi[i]) if Zi is not None else '[]'})" for i in range(N)])
 
 
+def nlist(xs):
+    return coq_list([f"{int(x)}%nat" for x in xs])
+
+
+class PoissonSpy:
+    """Runs a call of the real estimator while recording (a) a copy of every matrix np.corrcoef returned, taken BEFORE the caller
+    overwrites it, and (b) the argument / result of every poisson_entropy evaluation, element by element."""
+
+    def __init__(self, cm, ent):
+        self.cm, self.ent = cm, ent
+
+    def __call__(self, f):
+        cm, ent = self.cm, self.ent
+        rec = {"R": [], "pe": []}
+        o_corr, o_pe, o_cpe = np.corrcoef, ent.poisson_entropy, cm.poisson_entropy
+
+        def corr(*a, **k):
+            r = o_corr(*a, **k)
+            rec["R"].append(np.array(r, dtype=float, copy=True))
+            return r
+
+        def pe(lam):
+            arg = np.array(lam, dtype=float, copy=True).reshape(-1)
+            r = o_pe(lam)
+            res = np.asarray(r, dtype=float).reshape(-1).copy()
+            if res.shape != arg.shape:
+                res = np.full(arg.shape, np.nan)
+            rec["pe"].extend(zip(arg.tolist(), res.tolist()))
+            return r
+        np.corrcoef, ent.poisson_entropy, cm.poisson_entropy = corr, pe, pe
+        try:
+            with np.errstate(all="ignore"), lib.quiet():
+                try:
+                    v, raised = float(f()), None
+                except ValueError as e:
+                    v, raised = float("nan"), f"{type(e).__name__}: {e}"[:200]
+        finally:
+            np.corrcoef, ent.poisson_entropy, cm.poisson_entropy = o_corr, o_pe, o_cpe
+        return v, raised, rec
+
+
+def pcmi_call(swapped, order, raised, pe, value):
+    """Coq term for one recorded call (None when a non-finite number was recorded: cannot be written as a rational)."""
+    if raised is None and not (math.isfinite(value) and all(math.isfinite(a) and math.isfinite(h) for a, h in pe)):
+        return None
+    recs = coq_list([f"({qlit(a)}, {qlit(h)})" for a, h in pe]) if raised is None else "[]"
+    return f"({coq_bool(swapped)}, {nlist(order)}, {coq_bool(raised is not None)}, {recs}, {qlit(value if raised is None else 0.0)})"
+
+
 def run(chk):
     import importlib
     cm = importlib.import_module("causationentropy.core.information.conditional_mutual_information")
     mi = importlib.import_module("causationentropy.core.information.mutual_information")
     from causationentropy.core.information.entropy import poisson_entropy
+    ent = importlib.import_module("causationentropy.core.information.entropy")
+    spy = PoissonSpy(cm, ent)
     rng = np.random.default_rng(chk.seed)
     chk.theorems()
     lib.translator_lemma(chk, "estimator_source", translate_est.estimator_facts, translate_est.coq_estimator_facts, "")
+    # second tie of the conditional Poisson model: the branch's statements re-read from the current source = the table the model was written from
+    lib.translator_lemma(chk, "poisson_conditional_branch_source", translate_C10.conditional_branch_facts,
+                         translate_C10.coq_conditional_branch_facts, "")
+    lib.translator_lemma(chk, "poisson_joint_entropy_source", translate_est.poisson_joint_facts, translate_est.coq_poisson_joint_facts, "")
     chk.trusted += ["Coq 8.16.1 kernel + vm_compute",
-                    "the invariance theorems are about the estimator MODELS (Model/KnnCounts.v, Model/Kde.v, Model/PoissonMI.v, and the "
+                    "the invariance theorems are about the estimator MODELS (Model/KnnCounts.v, Model/Kde.v, Model/PoissonMI.v, Model/PoissonCMI.v, and the "
                     "Gaussian / geometric models of C08 / C12); the models are tied to the code by the correspondences of C08, C11, C12, C13 "
-                    "and, here, by re-evaluating the kNN and unconditional-Poisson models on original and transformed inputs",
+                    "and, here, by re-evaluating the kNN and the two Poisson models on original and transformed inputs",
+                    "conditional Poisson model: numpy's aliasing / broadcasting / fill_diagonal / fancy-indexing semantics are reproduced by hand in "
+                    "Model/PoissonCMI.v and tied only by the differential runs (spies on np.corrcoef and poisson_entropy); np.corrcoef and "
+                    "poisson_entropy themselves are oracles there (C13 covers poisson_entropy)",
                     "harness/props/C10.py: the property predicate is evaluated directly on the implementation "
                     "(transform the arguments, call again, compare within 1e-9 relative to max(1,|value|))",
                     "purity is a run-time observation: argument arrays compared bit-for-bit before/after, repeated calls compared exactly"]
     chk.assumptions += ["tie-free continuous samples for every estimator; count samples for the Gaussian and Poisson estimators; "
                         "joint correlation matrix of the sample has condition number <= 1e5 (rounding is amplified by it)",
                         "known finding K2: the CONDITIONAL Poisson estimator is not symmetric under X/Y exchange nor under reordering of "
-                        "Z's columns (matched on estimator, path and transformation only; row order and the unconditional path stay checked)"]
+                        "Z's columns (matched on estimator, path and transformation only; row order, Z-column permutations that keep the first "
+                        "column in place, and the unconditional path stay checked); formal counterparts: C10_poisson_conditional_swap_refuted, "
+                        "C10_poisson_conditional_zorder_refuted, replayed on the implementation on every run"]
     quick = chk.tier == "quick"
 
     # estimator table: name -> (callable(X, Y, Z-or-None, **settings), settings sampler, data kind)
@@ -81,6 +144,47 @@ def run(chk):
 
     n_per = {"gaussian": 60, "knn": 50, "kde": 30, "geometric_knn": 8, "poisson": 60} if quick else \
             {"gaussian": 3000, "knn": 2500, "kde": 1200, "geometric_knn": 250, "poisson": 3000}
+    pc_cases, pc_pf, pc_desc, pc_match = [], [], [], []
+
+    KNOWN_T = ("swap_xy", "zcol_perm")
+
+    def pc_sample(kx, ky, kz, route, orders, desc, predicates=()):
+        """orders: label -> (X', Y', Z', variable order new->old, value seen without spies or None).  The first entry is the original call;
+        its recorded correlation matrix is the one every call of this sample hands to the model.  One Coq case per sample."""
+        R0, calls, fails, variants = None, [], [], []
+        for label, (a, b, c, order, seen) in orders.items():
+            a, b, c = np.ascontiguousarray(a), np.ascontiguousarray(b), np.ascontiguousarray(c)
+            if route == "dispatcher":
+                f = lambda: cm.conditional_mutual_information(a, b, c, method="poisson")
+            else:
+                f = lambda: cm.poisson_conditional_mutual_information(a, b, c)
+            v, raised, rec = spy(f)
+            if R0 is None:
+                R0 = rec["R"][0] if len(rec["R"]) == 1 and np.all(np.isfinite(rec["R"][0])) else None
+                v_orig = v
+            term = pcmi_call(label == "swap_xy", order, raised, rec["pe"], v) if (R0 is not None and len(rec["R"]) == 1) else None
+            if term is None:    # nothing comparable was recorded (no / several corrcoef calls, non-finite numbers): a call the model rejects
+                term = pcmi_call(False, list(range(kx + ky + kz)), "unrecordable" if kx == ky else None, [], 0.0)
+            calls.append(term)
+            if seen is not None and not (v == seen or (math.isnan(v) and math.isnan(seen))):
+                fails.append(("repeat", f"poisson estimator ({route}, Z present) returned {seen} and then {v} for equal arguments ({label})"))
+            elif label in predicates and raised is None and not close(v_orig, v):
+                fails.append((label, f"poisson estimator ({route}, Z present): value {v_orig} becomes {v} after {label}"))
+            variants.append({"variant": label, "variable_order_new_to_old": order, "value": v, "raised": raised,
+                             "poisson_entropy_calls": rec["pe"]})
+            chk.count(f"poisson_conditional_model.{label}")
+            if raised is not None:
+                chk.count("poisson_conditional_model.raised_ValueError")
+        M = R0 if R0 is not None else np.eye(kx + ky + kz)
+        pc_cases.append(f"({kx}%nat, {ky}%nat, {kz}%nat, {qmat(M.tolist())}, {qlit(RATE_TOL)}, {qlit(VALUE_TOL)}, {coq_list(calls)})")
+        fails.sort(key=lambda lf: lf[0] in KNOWN_T)       # a failure that is not one of the two known findings comes first
+        pc_pf.append(fails[0][1] if fails else None)
+        pc_match.append({"site": "poisson/Z present", "transform": fails[0][0] if fails else None})
+        pc_desc.append(dict(desc, corrcoef_of_original_call=M.tolist(), calls=variants))
+        for lab, what in fails[1:]:      # further known-finding failures of the same sample (they only mark the finding as hit)
+            if lab in KNOWN_T:
+                chk.violation("counterexample", what, dict(desc, transform=lab), {"site": "poisson/Z present", "transform": lab})
+
     knn_cases, knn_pf, knn_desc = [], [], []
     pm_cases, pm_pf, pm_desc = [], [], []
     for name, n_samples in n_per.items():
@@ -237,6 +341,15 @@ def run(chk):
                     pm_cases.append(f"({qmat(R.tolist())}, {qlist(hd)}, {qlist(hm)}, {qlit(val)}, {qlit(1e-9)})")
                     pm_pf.append(None)
                     pm_desc.append(dict(desc, variant=vn, variant_value=val, corrcoef=R.tolist()))
+            # conditional Poisson (Model/PoissonCMI.v): the same calls again under the spies; every transformed call must be the model on
+            # the ORIGINAL call's correlation matrix with the variables re-indexed
+            if name == "poisson" and cond:
+                orders = {"orig": (X, Y, Z, list(range(kx + ky + kz)), v0),
+                          "row_perm": (X[perm], Y[perm], Z[perm], list(range(kx + ky + kz)), vals["row_perm"]),
+                          "swap_xy": (Y, X, Z, [kx + i if i < ky else (i - ky if i < kx + ky else i) for i in range(kx + ky + kz)], vals["swap_xy"])}
+                if "zcol_perm" in vals:
+                    orders["zcol_perm"] = (X, Y, Z[:, cp], list(range(kx + ky)) + [kx + ky + int(c) for c in cp], vals["zcol_perm"])
+                pc_sample(kx, ky, kz, via, orders, desc)
     # ---- large samples (beyond any internal block size): row order and X/Y roles for the fast estimators
     for t in range(6 if quick else 120):
         name = ["knn", "gaussian", "knn"][t % 3]
@@ -264,6 +377,78 @@ def run(chk):
                               {"estimator": name, "settings": s_, "N": N, "conditional": cond, "transform": tname, "seed_stream": "large_N",
                                "value": v0, "transformed_value": v1, "how": f"rows generated in harness/props/C10.py large-N stream, index {t}"},
                               {"site": f"{name}/{'Z present' if cond else 'Z absent'}", "transform": tname})
+    # ---- conditional Poisson, all block widths 1..3 x 1..3 x 1..4 (unequal X / Y widths: the code raises ValueError and the model says
+    #      so), both routes; drawn after every other stream so that the earlier streams are the ones of the previous version of this check
+    for t in range(30 if quick else 1500):
+        kx = int(rng.integers(1, 4))
+        ky = kx if rng.random() < 0.8 else int(rng.integers(1, 4))
+        kz = int(rng.integers(1, 5))
+        N = int(rng.integers(12, 41))
+        d = kx + ky + kz
+        W = rng.poisson(float(rng.uniform(1.0, 6.0)), (N, d)).astype(float)
+        W[:, kx:kx + ky] += rng.poisson(1.0, (N, ky)) * W[:, :1]
+        if rng.random() < 0.5:
+            W[:, kx + ky:] += rng.poisson(0.7, (N, kz)) * W[:, kx:kx + 1]
+        if np.any(W.std(axis=0) == 0):
+            continue
+        X, Y, Z = W[:, :kx].copy(), W[:, kx:kx + ky].copy(), W[:, kx + ky:].copy()
+        route = "dispatcher" if t % 3 == 0 else "direct"
+        perm = rng.permutation(N)
+        ident = list(range(d))
+        orders = {"orig": (X, Y, Z, ident, None), "row_perm": (X[perm], Y[perm], Z[perm], ident, None),
+                  "swap_xy": (Y, X, Z, [kx + i if i < ky else (i - ky if i < kx + ky else i) for i in range(d)], None)}
+        if kz >= 2:
+            cp = rng.permutation(kz)
+            while np.array_equal(cp, np.arange(kz)):
+                cp = rng.permutation(kz)
+            orders["zcol_perm"] = (X, Y, Z[:, cp], ident[:kx + ky] + [kx + ky + int(c) for c in cp], None)
+        if kz >= 3:     # a re-ordering of Z's columns that keeps the first one in place: the theorem says the estimate IS invariant
+            cq = np.concatenate(([0], 1 + rng.permutation(kz - 1)))
+            while np.array_equal(cq, np.arange(kz)):
+                cq = np.concatenate(([0], 1 + rng.permutation(kz - 1)))
+            orders["zcol_perm_first_column_fixed"] = (X, Y, Z[:, cq], ident[:kx + ky] + [kx + ky + int(c) for c in cq], None)
+        if kx == ky and kx >= 3:   # X and Y columns re-ordered together, first pair in place (not a clause of the property; model only)
+            cx = np.concatenate(([0], 1 + rng.permutation(kx - 1)))
+            orders["xy_paired_perm_first_pair_fixed"] = (X[:, cx], Y[:, cx], Z, [int(c) for c in cx] + [kx + int(c) for c in cx] + ident[kx + ky:], None)
+        desc = {"estimator": "poisson", "via": route, "conditional": True, "counts": True, "N": N, "stream": "poisson_conditional_widths",
+                "X": X.tolist(), "Y": Y.tolist(), "Z": Z.tolist()}
+        pc_sample(kx, ky, kz, route, orders, desc,
+                  predicates=("row_perm", "swap_xy", "zcol_perm", "zcol_perm_first_column_fixed") if kx == ky else ())
+        chk.case(key=("pcw", route, W.tobytes(), kx, ky, kz), nontrivial=(kx == ky), sample=None)
+        chk.count("poisson_conditional_widths.samples")
+        chk.count(f"poisson_conditional_widths.kx{kx}_ky{ky}")
+    lib.correspond(chk, "poisson_conditional_model_on_original_and_transformed", IMPORTS, PCMI_TYPE, "check_pcmi_case",
+                   pc_cases, pc_pf, lambda i: pc_desc[i], shard=12 if quick else 60, jobs=8, match_of=lambda i: pc_match[i])
+    # ---- replay of the witness of C10_poisson_conditional_swap_refuted / _zorder_refuted (K2a / K2b): an 8-row count sample (Hadamard
+    #      contrasts) whose correlation matrix is Model/PoissonCMI.v `witness`: [[1,0,1/2,0],[0,1,0,0],[1/2,0,1,0],[0,0,0,1]], k_x = k_y = 1, k_z = 2
+    Hd = np.array([[1 if bin(i & j).count("1") % 2 == 0 else -1 for j in range(8)] for i in range(8)])
+    e1, e2, e3 = Hd[:, 4], Hd[:, 2], Hd[:, 1]
+    Ws = np.column_stack([e1 + 1, e2 + 1, e1 + e3 + e1 * e2 + e1 * e3 + 4, e2 * e3 + 1]).astype(float)
+    wit_cases, wit_pf, wit_desc, wit_match = [], [], [], []
+    Xw, Yw, Zw = Ws[:, :1], Ws[:, 1:2], Ws[:, 2:]
+    for route in ("direct", "dispatcher"):
+        v_first = None
+        for label, (a, b, c, order) in {"orig": (Xw, Yw, Zw, [0, 1, 2, 3]), "swap_xy": (Yw, Xw, Zw, [1, 0, 2, 3]),
+                                        "zcol_perm": (Xw, Yw, Zw[:, ::-1], [0, 1, 3, 2])}.items():
+            a, b, c = np.ascontiguousarray(a), np.ascontiguousarray(b), np.ascontiguousarray(c)
+            f = (lambda: cm.conditional_mutual_information(a, b, c, method="poisson")) if route == "dispatcher" else \
+                (lambda: cm.poisson_conditional_mutual_information(a, b, c))
+            v, raised, rec = spy(f)
+            ok = raised is None and math.isfinite(v) and len(rec["R"]) == 1 and rec["R"][0].shape == (4, 4) and np.all(np.isfinite(rec["R"][0]))
+            Rw = rec["R"][0] if ok else np.full((4, 4), 7.0)
+            wit_cases.append(f"({nlist(order)}, {lib.zmat(Ws.astype(int).tolist())}, {qmat(Rw.tolist())}, {qlit(v if ok else 0.0)}, "
+                             f"{qlit(RATE_TOL)}, {qlit(1e-8)})")
+            if label == "orig":
+                v_first = v
+            wit_pf.append(None if label == "orig" or close(v_first, v) else
+                          f"poisson estimator ({route}, Z present): value {v_first} becomes {v} after {label} (witness sample of the _refuted theorems)")
+            wit_match.append({"site": "poisson/Z present", "transform": label})
+            wit_desc.append({"estimator": "poisson", "via": route, "conditional": True, "variant": label, "X": a.tolist(), "Y": b.tolist(),
+                             "Z": c.tolist(), "value": v, "raised": raised, "corrcoef": Rw.tolist()})
+            chk.count("poisson_conditional_witness.calls")
+        chk.case(key=("witness", route), nontrivial=True)
+    lib.correspond(chk, "poisson_conditional_witness_replay", IMPORTS, "list nat * list (list Z) * list (list Q) * Q * Q * Q", "check_witness_case",
+                   wit_cases, wit_pf, lambda i: wit_desc[i], shard=10, jobs=1, match_of=lambda i: wit_match[i])
     lib.correspond(chk, "knn_model_on_original_and_transformed", IMPORTS,
                    "metric * nat * bool * list (list Z * list Z * list Z) * option Q * Q", "check_knn_case",
                    knn_cases, knn_pf, lambda i: knn_desc[i], shard=30, jobs=10)
@@ -276,4 +461,9 @@ def run(chk):
                 "the dispatcher. Transformations: a random joint row permutation, X/Y exchange, a non-identity Z column permutation (k_z>=2); "
                 "the value must be unchanged within 1e-9 relative to max(1,|value|). Purity: arguments bit-identical after the call, repeated "
                 "call exactly equal. The kNN model (exact) and the unconditional Poisson model are re-evaluated inside Coq on original and "
-                "transformed inputs. Distinct = distinct data/settings/route; non-trivial = finite non-zero estimate.")
+                "transformed inputs. Conditional Poisson: every such sample of the main stream plus a stream of count samples with block widths "
+                "1..3 x 1..3 x 1..4 (80% k_x = k_y; unequal widths must raise ValueError), N 12..40, direct and dispatcher routes, is run again under "
+                "spies on np.corrcoef / poisson_entropy for the original, row-permuted, X/Y-exchanged, Z-permuted, Z-permuted-with-first-column-fixed "
+                "(k_z>=3, a property clause) and paired-X/Y-permuted (k>=3) calls; Model/PoissonCMI.v on the original call's matrix must reproduce the "
+                "recorded entropy arguments (multiset, 1e-12) and the value (1e-9); the 8-row witness sample of the refutation theorems is replayed. "
+                "Distinct = distinct data/settings/route; non-trivial = finite non-zero estimate.")
